@@ -563,6 +563,7 @@ fn main() {
     gen_error_enums(&repo, &out);
     gen_token_fns(&repo, &out);
     gen_seed_sizes(&repo, &out);
+    gen_seed_tags(&repo, &out);
 }
 // ---------------------------------------------------------------------------------------------
 // Boolean predicates of generic-token, translated expression by expression into the small Lean
@@ -872,4 +873,144 @@ fn gen_seed_sizes(repo: &Path, out: &Path) {
     }
     writeln!(s, "end Gen.Seeds").unwrap();
     write_if_changed(&out.join("SeedConsts.lean"), &s);
+}
+
+// ---------------------------------------------------------------------------------------------
+// Tag bytes of the seed / key-data micro-format (what `pack` writes at dst[0], which literal `unpack`
+// dispatches on for each variant), the 32-byte limit, and the arm order of `ExtraAccountMeta::resolve`.
+// ---------------------------------------------------------------------------------------------
+struct VariantFinder<'a> { ty: &'a str, variants: &'a [&'a str], found: Option<String> }
+impl<'ast, 'a> syn::visit::Visit<'ast> for VariantFinder<'a> {
+    fn visit_path(&mut self, p: &'ast syn::Path) {
+        if self.found.is_none() && p.segments.len() == 2 {
+            let (a, b) = (p.segments[0].ident.to_string(), p.segments[1].ident.to_string());
+            if (a == "Self" || a == self.ty) && self.variants.contains(&b.as_str()) { self.found = Some(b); }
+        }
+        syn::visit::visit_path(self, p);
+    }
+}
+
+fn variant_in_expr(e: &syn::Expr, file: &syn::File, ty: &str, variants: &[&str]) -> Option<String> {
+    use syn::visit::Visit;
+    let mut f = VariantFinder { ty, variants, found: None };
+    f.visit_expr(e);
+    if f.found.is_some() { return f.found; }
+    // `1 => unpack_seed_literal(rest)`: look inside the called free function
+    if let syn::Expr::Call(c) = unparen(e) {
+        if let syn::Expr::Path(p) = &*c.func {
+            if let Some(func) = find_free_fn(file, &p.path.segments.last()?.ident.to_string()) {
+                let mut f = VariantFinder { ty, variants, found: None };
+                f.visit_block(&func.block);
+                return f.found;
+            }
+        }
+    }
+    None
+}
+
+fn find_match<'a>(block: &'a syn::Block, scrutinee_mentions: &str) -> Option<&'a syn::ExprMatch> {
+    for st in &block.stmts {
+        let e = match st { syn::Stmt::Expr(e, _) => e, _ => continue };
+        if let syn::Expr::Match(m) = e {
+            let txt = expr_idents(&m.expr);
+            if txt.iter().any(|i| i == scrutinee_mentions) { return Some(m); }
+        }
+    }
+    None
+}
+
+fn expr_idents(e: &syn::Expr) -> Vec<String> {
+    struct V(Vec<String>);
+    impl<'ast> syn::visit::Visit<'ast> for V { fn visit_ident(&mut self, i: &'ast proc_macro2::Ident) { self.0.push(i.to_string()); } }
+    use syn::visit::Visit;
+    let mut v = V(vec![]);
+    v.visit_expr(e);
+    v.0
+}
+
+/// the literal assigned to `dst[0]` in a block
+fn tag_written(b: &syn::Expr) -> Option<i128> {
+    let syn::Expr::Block(blk) = unparen(b) else { return None };
+    for st in &blk.block.stmts {
+        if let syn::Stmt::Expr(syn::Expr::Assign(a), _) = st {
+            if let syn::Expr::Index(ix) = &*a.left {
+                if eval(&ix.index, &Consts::new()) == Some(0) { return eval(&a.right, &Consts::new()); }
+            }
+        }
+    }
+    None
+}
+
+fn tags_of(file: &syn::File, ty: &str, variants: &[&str], what: &str) -> Vec<(String, i128, i128)> {
+    let pack = find_impl_fn(file, ty, "pack").unwrap_or_else(|| fail(&format!("{what}::pack not found")));
+    let unpack = find_impl_fn(file, ty, "unpack").unwrap_or_else(|| fail(&format!("{what}::unpack not found")));
+    let pm = find_match(&pack.block, "self").unwrap_or_else(|| fail(&format!("{what}::pack: no match on self")));
+    let um = find_match(&unpack.block, "discrim").unwrap_or_else(|| fail(&format!("{what}::unpack: no match on the discriminator byte")));
+    let mut out = vec![];
+    for v in variants {
+        let parm = pm.arms.iter().find(|a| variant_of(&a.pat).as_deref() == Some(*v)).unwrap_or_else(|| fail(&format!("{what}::pack: no arm for {v}")));
+        let written = if *v == "Uninitialized" { 0 } else { tag_written(&parm.body).unwrap_or_else(|| fail(&format!("{what}::pack: arm {v} does not assign dst[0] a constant"))) };
+        let mut read = None;
+        for a in &um.arms {
+            if let syn::Pat::Lit(l) = &a.pat {
+                if let Some(n) = eval(&syn::Expr::Lit(l.clone()), &Consts::new()) {
+                    if variant_in_expr(&a.body, file, ty, variants).as_deref() == Some(*v) { read = Some(n); }
+                }
+            }
+        }
+        out.push((v.to_string(), written, read.unwrap_or_else(|| fail(&format!("{what}::unpack: no literal arm produces {v}")))));
+    }
+    // every literal arm of unpack must be accounted for
+    let lits = um.arms.iter().filter(|a| matches!(a.pat, syn::Pat::Lit(_))).count();
+    if lits != variants.len() { fail(&format!("{what}::unpack has {lits} literal arms, expected {}", variants.len())) }
+    out
+}
+
+fn gen_seed_tags(repo: &Path, out: &Path) {
+    let seeds = parse_file(&repo.join("tlv-account-resolution/src/seeds.rs"));
+    let kd = parse_file(&repo.join("tlv-account-resolution/src/pubkey_data.rs"));
+    let acct = parse_file(&repo.join("tlv-account-resolution/src/account.rs"));
+    let mut s = String::new();
+    writeln!(s, "-- GENERATED by /verif/harness `extract` from /repo/tlv-account-resolution/src/{{seeds,pubkey_data,account}}.rs — do not edit").unwrap();
+    writeln!(s, "-- tag bytes: what `pack` writes at dst[0] and which literal arm of `unpack` yields each variant; arm order of `resolve`").unwrap();
+    writeln!(s, "import SplModel.RustExpr\nnamespace Gen.Format").unwrap();
+    let up = |v: &str| { let mut o = String::new(); for (i, c) in v.chars().enumerate() { if c.is_uppercase() && i > 0 { o.push('_'); } o.push(c.to_ascii_uppercase()); } o };
+    for (v, w, r) in tags_of(&seeds, "Seed", &["Uninitialized", "Literal", "InstructionData", "AccountKey", "AccountData"], "Seed") {
+        writeln!(s, "def SEED_PACK_TAG_{} : Nat := {w}\ndef SEED_UNPACK_TAG_{} : Nat := {r}", up(&v), up(&v)).unwrap();
+    }
+    for (v, w, r) in tags_of(&kd, "PubkeyData", &["Uninitialized", "InstructionData", "AccountData"], "PubkeyData") {
+        writeln!(s, "def KD_PACK_TAG_{} : Nat := {w}\ndef KD_UNPACK_TAG_{} : Nat := {r}", up(&v), up(&v)).unwrap();
+    }
+    // ExtraAccountMeta::resolve: `match self.discriminator { <lit> => …, x if <guard> => …, _ => … }` -> index of the arm taken
+    let res = find_impl_fn(&acct, "ExtraAccountMeta", "resolve").unwrap_or_else(|| fail("ExtraAccountMeta::resolve not found"));
+    let m = find_match(&res.block, "discriminator").unwrap_or_else(|| fail("ExtraAccountMeta::resolve: no match on the discriminator"));
+    let consts: std::collections::BTreeSet<String> = ["U8_TOP_BIT".to_string()].into_iter().collect();
+    let fns = std::collections::BTreeMap::new();
+    let mut arms: Vec<String> = vec![];
+    let mut kinds: Vec<String> = vec![];
+    for a in &m.arms {
+        let cond = match &a.pat {
+            syn::Pat::Lit(l) => format!("(RX.eq (RX.lit x) (RX.lit {}))", eval(&syn::Expr::Lit(l.clone()), &Consts::new()).unwrap_or_else(|| fail("resolve: literal pattern"))),
+            syn::Pat::Ident(id) => {
+                let (_, g) = a.guard.as_ref().unwrap_or_else(|| fail("resolve: binding pattern without a guard"));
+                // the bound name stands for the scrutinee
+                let cx = FnCtx { module: "account", slices: vec![], nats: vec![id.ident.to_string()], keys: vec![], consts: &consts, fns: &fns };
+                tr_bool(g, &cx).replace(&format!("(RX.lit {})", id.ident), "(RX.lit x)")
+            }
+            syn::Pat::Wild(_) => "(Res.ok true)".to_string(),
+            _ => fail("resolve: unsupported pattern"),
+        };
+        arms.push(format!("(fun _ => {cond})"));
+        // what the arm does, recognised by the resolver it calls
+        let ids = expr_idents(&a.body);
+        kinds.push(if ids.iter().any(|i| i == "resolve_pda") { "1" } else if ids.iter().any(|i| i == "resolve_key_data") { "2" }
+            else if ids.iter().any(|i| i == "try_from") { "0" } else if ids.iter().any(|i| i == "Err") { "3" } else { fail("resolve: arm of unknown kind") }.to_string());
+    }
+    writeln!(s, "def U8_TOP_BIT : Nat := {}", const_val(&{ let mut e = Consts::new(); collect_consts(&acct.items, "", &mut e); e }, "U8_TOP_BIT", "account.rs")).unwrap();
+    writeln!(s, "/-- guards of the arms of `match self.discriminator` in `ExtraAccountMeta::resolve`, in source order -/").unwrap();
+    writeln!(s, "def resolveArmGuards (x : Nat) : List (Unit → Res Bool) :=\n  [{}]", arms.join(",\n   ")).unwrap();
+    writeln!(s, "/-- what each arm does: 0 = fixed address, 1 = PDA, 2 = key from data, 3 = rejected -/").unwrap();
+    writeln!(s, "def resolveArmKinds : List Nat := [{}]", kinds.join(", ")).unwrap();
+    writeln!(s, "end Gen.Format").unwrap();
+    write_if_changed(&out.join("FormatConsts.lean"), &s);
 }
